@@ -30,7 +30,7 @@ DihTop(p) ==
       cmp  == IF p.comp THEN << [key |-> KeyOf(p.ty, p.m2, FALSE, FALSE), par |-> <<"9", "220", "2.5", "1">>] >> ELSE <<>>
       tbl  == IF p.cfirst THEN cmp \o main ELSE main \o cmp
   IN [opls |-> FALSE, btype |-> <<>>,
-      defs |-> IF p.df = "tbl" THEN [k \in 1..nt |-> [name |-> MacroNames[k], toks |-> <<Phase[k], "1.5", Mult[k]>>]] ELSE <<>>,
+      defs |-> IF p.df = "tbl" THEN [k \in 1..nt |-> [op |-> "define", name |-> MacroNames[k], toks |-> <<Phase[k], "1.5", Mult[k]>>]] ELSE <<>>,
       tables |-> [EmptyK EXCEPT !["dihedrals"] = tbl],
       mols |-> << [name |-> "M", atypes |-> Typings[p.ty],
                    inter |-> [EmptyK EXCEPT !["dihedrals"] =
@@ -70,7 +70,7 @@ PlainTop(p) ==
       unt   == [atoms |-> IF p.lr THEN Rev(fwd) ELSE fwd, par |-> <<"1">>]
   IN [opls |-> p.opls,
       btype |-> IF p.opls THEN [x \in 1..3 |-> [t |-> TNames[x], b |-> BNames[x]]] ELSE <<>>,
-      defs |-> IF p.tm THEN << [name |-> "gx_1", toks |-> IF p.kind = "constraints" THEN <<"0.31">> ELSE <<"0.15", "500">>] >> ELSE <<>>,
+      defs |-> IF p.tm THEN << [op |-> "define", name |-> "gx_1", toks |-> IF p.kind = "constraints" THEN <<"0.31">> ELSE <<"0.15", "500">>] >> ELSE <<>>,
       tables |-> [EmptyK EXCEPT ![p.kind] = <<d1>> \o real \o <<d2>>],
       mols |-> << [name |-> "M", atypes |-> TNames, inter |-> [EmptyK EXCEPT ![p.kind] = IF p.first THEN <<unt, lit>> ELSE <<lit, unt>>]] >>,
       molecules |-> << [name |-> "M", n |-> p.ni] >>]
@@ -93,8 +93,9 @@ AnglePar(st) == CASE st = "typed" -> <<"2">>
                   [] st = "mac"   -> <<"2", "ga_1">>
                   [] st = "mac2"  -> <<"2", "ga_th", "ga_k">>
                   [] st = "mix"   -> <<"2", "120", "ga_k">>
-MacroDefs == << [name |-> "gb_1", toks |-> <<"0.1", "1000">>], [name |-> "gb_len", toks |-> <<"0.25">>], [name |-> "gb_k", toks |-> <<"2500">>],
-                [name |-> "ga_1", toks |-> <<"100", "250">>], [name |-> "ga_th", toks |-> <<"90">>], [name |-> "ga_k", toks |-> <<"75">>] >>
+Def(name, toks) == [op |-> "define", name |-> name, toks |-> toks]
+MacroDefs == << Def("gb_1", <<"0.1", "1000">>), Def("gb_len", <<"0.25">>), Def("gb_k", <<"2500">>),
+                Def("ga_1", <<"100", "250">>), Def("ga_th", <<"90">>), Def("ga_k", <<"75">>) >>
 MacroTop(p) ==
   LET bonds  == << [atoms |-> <<1, 2>>, par |-> BondPar(p.b1, 1)], [atoms |-> <<3, 2>>, par |-> BondPar(p.b2, 2)],
                    [atoms |-> <<3, 4>>, par |-> BondPar(p.b3, 3)] >>
@@ -110,6 +111,44 @@ MacroParams == [b1 : Styles, b2 : Styles, b3 : Styles, a1 : {"typed", "mac"}, a2
 MacroFam == {MacroTop(p) : p \in MacroParams}
 PlainCases == PlainFam \cup MacroFam
 
+(* ---- family "cond": the preprocessor lines.  One block  #ifdef | #ifndef TAG ... [#else ...] #endif,  the tag defined    *)
+(* before the block or not; three payload lines - the macro used by an interaction (gb_1), the macro used by the type-table  *)
+(* entries (gt_1), the OPLS tag (decides which entry is looked up; may be absent) - each before the block, in its first      *)
+(* branch, in its #else branch or after it; the block's own tag defined nowhere, first or last in a branch (#ifndef TAG /    *)
+(* #define TAG first = the include-guard idiom; last = the condition would flip if it were evaluated late), or after the     *)
+(* block.  CondAll is every combination (TLC checks the intended reader against cpp on all of them); the ones of the stated    *)
+(* domain (no #define in a branch that is not selected) are exported and replayed on the code.                                *)
+CTag == "C09_GUARD"
+DefB == Def("gb_1", <<"0.1", "1000">>)
+DefT == Def("gt_1", <<"0.15">>)
+DefO == Def("_FF_OPLS", <<>>)
+DefG == Def(CTag, <<>>)
+PLine(op, name) == [op |-> op, name |-> name, toks |-> <<>>]
+Pos == {"pre", "then", "else", "post"}
+PayAt(p, w) == (IF p.b = w THEN <<DefB>> ELSE <<>>) \o (IF p.t = w THEN <<DefT>> ELSE <<>>) \o (IF p.o = w THEN <<DefO>> ELSE <<>>)
+Part(p, w) == IF p.g = w THEN (IF p.gfirst THEN <<DefG>> \o PayAt(p, w) ELSE PayAt(p, w) \o <<DefG>>) ELSE PayAt(p, w)
+CondLines(p) == (IF p.pre THEN <<DefG>> ELSE <<>>) \o PayAt(p, "pre") \o <<PLine(p.cond, CTag)>> \o Part(p, "then")
+                \o (IF p.els THEN <<PLine("else", "")>> \o Part(p, "else") ELSE <<>>) \o <<PLine("endif", "")>> \o Part(p, "post")
+CondTop(p) ==
+  [opls |-> FALSE,
+   btype |-> [x \in 1..3 |-> [t |-> TNames[x], b |-> BNames[x]]],
+   defs |-> CondLines(p),
+   tables |-> [EmptyK EXCEPT !["bonds"] = << [key |-> <<"B", "C">>, par |-> <<"1", "gt_1", "900">>],
+                                            [key |-> <<"tC", "tB">>, par |-> <<"1", "gt_1", "700">>] >>],
+   mols |-> << [name |-> "M", atypes |-> TNames,
+                inter |-> [EmptyK EXCEPT !["bonds"] = << [atoms |-> <<1, 2>>, par |-> <<"1", "gb_1">>], [atoms |-> <<3, 2>>, par |-> <<"1">>] >>]] >>,
+   molecules |-> << [name |-> "M", n |-> 1] >>]
+CondParams == {p \in [pre : BOOLEAN, cond : {"ifdef", "ifndef"}, els : BOOLEAN, b : Pos, t : Pos, o : Pos \cup {"none"},
+                      g : {"none", "then", "else", "post"}, gfirst : BOOLEAN] :
+                 /\ (~p.els => p.b # "else" /\ p.t # "else" /\ p.o # "else" /\ p.g # "else")
+                 /\ (p.g \in {"none", "post"} => p.gfirst)}
+CondAll == {CondTop(p) : p \in CondParams}
+\* quick tier: the OPLS tag is moved around only while the two macros sit together
+CondQuick == {CondTop(p) : p \in {q \in CondParams : q.o = "none" \/ q.b = q.t}}
+\* small instances of the sensitivity runs: the OPLS tag absent
+CondSmall == {t \in {CondTop(p) : p \in {q \in CondParams : q.o = "none"}} : InDomain(t)}
+CondWideSmall == {CondTop(p) : p \in {q \in CondParams : q.o = "none"}}
+
 TI_quick == {<<1, 1>>, <<2, 2>>, <<3, 3>>}
 TI_full == {<<a, b>> : a \in 1..3, b \in 1..3}
 TI_one == {<<2, 2>>}
@@ -124,7 +163,12 @@ Sigs == << [sig |-> "pairs-not-typed", d |-> [pairs |-> TRUE, tbl |-> FALSE]],
            [sig |-> "define-in-type-table", d |-> [pairs |-> FALSE, tbl |-> TRUE]] >>
 Alts(t) == LET e == Expected(t, NoDev) IN
              SelectSeq([i \in 1..Len(Sigs) |-> [sig |-> Sigs[i].sig, res |-> Expected(t, Sigs[i].d)]], LAMBDA a : a.res # e)
-ExportInv == Final => PrintT(<<"CASE", ToJson([top |-> top, exp |-> Expected(top, NoDev), alt |-> Alts(top)])>>)
+\* rendering hint: the lines end with the #endif of a selected branch (the renderer may then close the block at the end of the file)
+WrapOK(L) == Len(L) > 0 /\ L[Len(L)].op = "endif" /\ Processed(L, Len(L))
+ExportInv == Final => PrintT(<<"CASE", ToJson([top |-> top, exp |-> Expected(top, NoDev), alt |-> Alts(top), wrapok |-> WrapOK(top.defs)])>>)
+\* the cond family is explored on every combination (intended reader = cpp, branches not selected included); only the
+\* combinations of the stated domain are exported for the replay on the code
+ExportDomInv == (Final /\ InDomain(top)) => ExportInv
 \* small instances of the sensitivity runs
 DihSmall == {DihTop(p) : p \in {q \in DParams : q.ti = <<2, 2>> /\ ~q.miss /\ ~q.cfirst /\ q.df = "none" /\ q.ty = 1}}
 DihSmallTbl == {DihTop(p) : p \in {q \in DParams : q.ty = 1 /\ q.ti = <<2, 2>> /\ ~q.miss /\ ~q.cfirst /\ (q.df = "tbl" \/ ~q.comp) /\ (q.comp => q.m2 \in {{}, {1}, {1, 2, 3, 4}})}}
